@@ -22,6 +22,9 @@ def generate(rng, tier):
     seeds = [0, 1, 42, 1 << 63, MAXU, MAXU - 7]
     for (n, d) in pairs:
         cases.append({"op": "init", "n": n, "d": d, "seed": str(rng.choice(seeds))})
+    # large requests (a size-dependent code path would show here), each with a smaller request for the prefix property
+    for (n, d) in [(128, 129)] + ([(256, 64), (200, 200), (256, 256)] if tier == "thorough" else []):
+        cases.append({"op": "init", "n": n, "d": d, "seed": str(rng.getrandbits(64)), "smaller": rng.randint(1, 12), "big": True})
     while len(cases) < n_cases:
         n = rng.randint(0, 256) if rng.random() < 0.3 else rng.randint(0, 24)
         d = rng.randint(0, 256) if rng.random() < 0.3 else rng.randint(0, 24)
@@ -49,6 +52,8 @@ def run_impl(cases):
 def coq_term(case, out):
     if "panic" in out:
         return None
+    if case.get("big"):
+        return "init64_eval %s %s %s" % (C.zlist(out["draws"]), C.natlit(case["n"]), C.natlit(case["d"]))
     return "(init64_eval %s %s %s) ++ (init32_eval %s %s %s)" % (
         C.zlist(out["draws"]), C.natlit(case["n"]), C.natlit(case["d"]),
         C.zlist(out["draws"]), C.natlit(case["n"]), C.natlit(case["d"]))
@@ -57,6 +62,8 @@ def coq_term(case, out):
 def impl_flat(case, out):
     if "panic" in out:
         return None
+    if case.get("big"):
+        return out["f64"]
     return out["f64"] + out["f32"]
 
 
@@ -65,7 +72,7 @@ def compare(case, out, model):
         return "implementation panicked: " + out["panic"]
     if model is None:
         return None
-    if out["f64"] + out["f32"] != model:
+    if (out["f64"] if case.get("big") else out["f64"] + out["f32"]) != model:
         return "init_with_seed(%d,%d,%s) differs from the row-major model of the replayed draws" % (case["n"], case["d"], case["seed"])
     return None
 
@@ -92,6 +99,8 @@ def oracle(case, out):
     for b in out["f32"]:
         if not math.isfinite(C.f32_bits_to_float(b)):
             return "non-finite f32 entry"
+    if out["f32"] != [C.float_to_f32_bits(C.f64_bits_to_float(b)) for b in out["draws"]]:
+        return "init_with_seed::<f32>(%d,%d,%s) is not the f64 draw stream rounded to f32, row-major" % (n, d, case["seed"])
     if "smaller" in case:
         k = case["smaller"] * d
         if out["smaller_f64"] != out["f64"][:k] or out["smaller_f32"] != out["f32"][:k]:
